@@ -275,6 +275,20 @@ theorem C13_full_reduction_axis (E : Env α δ)
     simp only [hi, dif_pos]
     exact hf i hi
 
+/-- `jnp.concatenate(v.ravel())`: the lifted `ravel` of every block, then one concatenation; an
+    empty block array is rejected (`IndexError` of the lifted method) before anything is concatenated -/
+theorem C13_ravel_cat (E : Env α δ) (rv : α → Res α) (concat : List α → Res α) (h : α → α)
+    (bs : List α) (hrv : ∀ x ∈ bs, rv x = .ok (h x)) (harr : ∀ x ∈ bs, E.isArr (h x) = true)
+    (hdt : Homog E (bs.map h)) :
+    (bs ≠ [] → ravelCatVia E rv concat bs = concat (bs.map h)) ∧
+    (bs = [] → ravelCatVia E rv concat bs = .error .index) := by
+  constructor
+  · intro hne
+    unfold ravelCatVia
+    rw [C13_method_blocks E rv h bs hne hrv harr hdt]
+  · rintro rfl
+    simp [ravelCatVia, liftMethod, mapE]
+
 /-- several block arguments and no `axis`: rejected (`ValueError`) -/
 theorem C13_full_reduction_two (inner : Bound α → Res (PyVal α)) (cat : List α → Res α)
     (bound : Bound α) (hax : hasKey "axis" (bound.filter (fun kv => !kv.2.isBlk)) = false)
